@@ -9,8 +9,8 @@ returns what the scenario prescribes - a document or an error.  Proved per value
     order, or the first child's error;
   * map (0-3 entries over int / uint / bool / string keys, including keys that render to the same
     text, every failing position): every entry is exported, the object has exactly one member per
-    distinct key text - named by the key's text, holding that entry's document (the later entry
-    wins a collision) - and an error of a child is the result; export itself never fails;
+    distinct key text - named by the key's text, holding the document of an entry with that key
+    text - and an error of a child is the result; export itself never fails;
   * bytes: the string produced by the *standard* base64 engine applied to the bytes;
   * string / timestamp: the string itself / its RFC 3339 rendering; int, uint, double, bool,
     null: the corresponding scalar document built from the payload;
@@ -319,16 +319,18 @@ def main():
                     if [tuple(x) for x in jev] != [("json", j) for j in range(upto)]:
                         probs.append("entries exported %s, expected each of the first %d once, in order" % (jev, upto))
                     if bad is None:
+                        # members are named by the key's text; where several keys render to the same text any one of
+                        # their documents may end up under it (map iteration order is unspecified)
                         want = {}
                         for j, k in enumerate(keys):
-                            want[key_text(k)] = ("doc", j)
+                            want.setdefault(key_text(k), []).append(("doc", j))
                         if not is_ok_with(res, "Object"):
                             probs.append("the result is not an object: %r" % (str(res)[:300],))
                         else:
                             jm = res[2][0][2][0]
                             got = {ent[0]: ent[1] for ent in jm[1]}
-                            if got != want or len(jm[1]) != len(want):
-                                probs.append("object members %s, expected %s" % (sorted(got.items()), sorted(want.items())))
+                            if set(got) != set(want) or len(jm[1]) != len(want) or any(got[t] not in want[t] for t in got):
+                                probs.append("object members %s, expected one member per key text out of %s" % (sorted(got.items()), sorted(want.items())))
                     elif not (res[1] == "Result::Err" and res[2][0] == ("child_error", bad)):
                         probs.append("the failing entry's error is not the result: %r" % (str(res)[:200],))
                     return probs
